@@ -13,7 +13,7 @@
    [value]: the typed values of the statement; [wf_value] their ranges.  Float Display, UTF-8-lossy and
    Windows-1252 decoding are the Section variables of Dlt/Text.v (external code, not modelled): the
    theorems hold for every such function. *)
-From Coq Require Import List NArith ZArith Bool.
+From Coq Require Import List NArith ZArith Bool Lia.
 From AdltV Require Import Base.Res Base.MachInt Dlt.Args Dlt.ArgsProofs Dlt.Text Dlt.TextProofs.
 Import ListNotations.
 Open Scope N_scope.
@@ -142,6 +142,35 @@ Theorem C18_signed_text (k : nat) (z : Z) : (0 < k)%nat ->
   sdec (8 * N.of_nat k) (twos k z) = zdec z.
 Proof. exact (sdec_twos k z). Qed.
 
+(* the width table (TYLE 1..5 = 8..128 bit; anything else has no width) and the wire layout on a literal:
+   type word, then for strings/raw a 16-bit length, then the bytes; both byte orders *)
+Theorem C18_width_table (t : N) :
+  tyle_len 1 = 1 /\ tyle_len 2 = 2 /\ tyle_len 3 = 4 /\ tyle_len 4 = 8 /\ tyle_len 5 = 16 /\
+  (t = 0 \/ 5 < t -> tyle_len t = 0).
+Proof.
+  repeat split; try reflexivity. intros [->|H]; [reflexivity|].
+  destruct t as [|q]; [reflexivity|]. destruct q as [[[q|q|]|[q|q|]|]|[[q|q|]|[q|q|]|]|]; try reflexivity; lia.
+Qed.
+
+Example C18_wire_layout :
+  payload_from_args (map (value_arg false) [VUInt 3 70000; VStr true [104; 105; 0]; VBool true])
+    = [67; 0; 0; 0;  112; 17; 1; 0;   0; 130; 0; 0;  3; 0;  104; 105; 0;   17; 0; 0; 0;  1] /\
+  payload_from_args (map (value_arg true) [VSInt 2 (-2)%Z; VRaw [9]; VFloat 3 1069547520])
+    = [0; 0; 0; 34;  255; 254;   0; 0; 4; 0;  0; 1;  9;   0; 0; 0; 131;  63; 192; 0; 0].
+Proof. split; vm_compute; reflexivity. Qed.
+
+(* exactly ONE trailing NUL is dropped, nothing else *)
+Theorem C18_strip_one_nul (s : bytes) (x : N) :
+  strip_nul (s ++ [0]) = s /\ (x <> 0 -> strip_nul (s ++ [x]) = s ++ [x]) /\ strip_nul [] = [].
+Proof. split; [apply strip_nul_spec|split; [apply strip_nul_no_nul|reflexivity]]. Qed.
+
+(* with the executable models of the two charset decoders (Dlt/Text.v, compared with std / encoding_rs by the
+   correspondence check) an ASCII string is shown as its own bytes, NUL dropped, CR/LF/TAB as spaces *)
+Theorem C18_text_ascii_string (fd32 fd64 : N -> bytes) (utf8 : bool) (s : bytes) :
+  ascii s ->
+  canon_value fd32 fd64 utf8_lossy_model w1252_model (VStr utf8 s) = map nl2sp (strip_nul s).
+Proof. apply canon_ascii_string. Qed.
+
 (* the defect repaired by /repo commit "fix: payload_from_args always writes the length ...": the previous
    encoder omitted the length field of an EMPTY string/raw argument; with it the round trip fails *)
 Definition enc_arg_before_fix (be : bool) (a : arg) : bytes :=
@@ -195,5 +224,9 @@ Print Assumptions C18_text_canonical_truncated.
 Print Assumptions C18_text_never_panics.
 Print Assumptions C18_dec_canonical.
 Print Assumptions C18_signed_text.
+Print Assumptions C18_width_table.
+Print Assumptions C18_wire_layout.
+Print Assumptions C18_strip_one_nul.
+Print Assumptions C18_text_ascii_string.
 Print Assumptions C18_encoder_before_fix_refuted.
 Print Assumptions C18_nonvacuous.
